@@ -367,6 +367,11 @@ pub fn gen_ser_steps(rng: &mut Rng, n: usize, lim: &Limits, drops: bool) -> Vec<
                 setcs: Some(ncs),
             });
             cs = ncs;
+        } else if rng.chance(1, 60) {
+            // a message the protocol cannot express (one byte above the limit): must be refused and must not disturb
+            // anything - neither the header memory nor the droppable bookkeeping of its chunk stream
+            let ty = *rng.pick(&[8u8, 9, 20]);
+            steps.push(SerStep { m: M { ty, msid: 1, ts: *rng.pick(&TS_TABLE), data: vec![0u8; 16777216] }, fu: false, cd: rng.chance(1, 2), setcs: None });
         } else {
             let m = g.next(rng, cs, lim, false);
             let fu = rng.chance(1, 8);
